@@ -1,5 +1,6 @@
 import NfcVerif.Lemmas.Term
 import NfcVerif.Lemmas.TermMulti
+import NfcVerif.Lemmas.Deact
 /-!
 # C09 - when the LLCP link ends no application thread is left waiting
 
@@ -214,5 +215,95 @@ def exListener : MState :=
 example : WF exListener.w ∧ (∀ t ∈ exListener.ths, preB exListener.w t = true) ∧
     (∀ t ∈ exListener.ths, t.call = SPt.listenAccept.call) := by
   refine ⟨by simp [WF, exListener], by decide, by decide⟩
+
+/-! ## the MAC deactivation that `terminate()` runs BEFORE it shuts the sockets down (virtual clock)
+
+`NfcVerif.Model.Deact`: `Target._deactivate` / `send_res_recv_req` and `Initiator.deactivate` of nfc/dep.py
+with the clock made explicit; the peer is an arbitrary script of exchange outcomes (requests of any kind,
+with matching or foreign DID, undecodable frames, None, TimeoutError, TransmissionError, other communication
+errors, anything else the driver raises) with arbitrary response times.  Tied to the real classes by
+harness/props/c09_deact.py (virtual `time` patched into nfc.dep, scripted `clf.exchange`): outcome, end time,
+and per exchange what was sent with which timeout. -/
+section Deactivation
+open NfcVerif.Deact
+
+/-- **Target.deactivate returns in bounded time, every peer script** (the code as found, and with the
+    proposed repair): called at `t0`, it has ended - by return or by an exception of the driver, in both cases
+    `terminate()` goes on to shut the service access points down - by
+    `t0 + D + 2 * lat + txSlack`: the deadline of one second, one driver latency for the exchange that runs
+    into the deadline, one for the RLS_RES / DSL_RES sent with timeout 0, and `txSlack` = one driver latency per
+    TransmissionError event of the script on the code as found (0 with the repair fixes/C09/0010, which stops
+    repeating an exchange once the deadline has passed).  No hypothesis on the script, the pending first command,
+    `D`, `lat` or `t0`. -/
+theorem target_deactivate_time (cfg : Cfg) (hr : cfg.renew = false) (cmd : Pending) (script : List Deact.Ev)
+    (t0 : Nat) :
+    (targetDeactivate cfg cmd script t0).tEnd ≤ t0 + cfg.D + 2 * cfg.lat + txSlack cfg script :=
+  target_time cfg hr cmd script t0
+
+/-- with the repair the bound is a constant: deadline + two driver latencies, for EVERY peer script; this is
+    also the moment by which `terminate()` has reached the shutdown of the service access points -/
+theorem target_deactivate_bounded (cfg : Cfg) (hr : cfg.renew = false) (hb : cfg.retryBounded = true)
+    (cmd : Pending) (script : List Deact.Ev) (t0 : Nat) :
+    targetShutdownAt cfg cmd script t0 ≤ t0 + cfg.D + 2 * cfg.lat := by
+  have := target_time cfg hr cmd script t0
+  simp only [txSlack, hb, if_true] at this
+  simpa [targetShutdownAt] using this
+
+/-- the code as found: the same constant bound for every peer script in which the driver never reports a
+    TransmissionError. Partial: see `target_deactivate_unbounded_counterexample`. -/
+theorem target_deactivate_bounded_partial (cfg : Cfg) (hr : cfg.renew = false) (cmd : Pending)
+    (script : List Deact.Ev) (hs : ∀ ev ∈ script, ev.out ≠ .transmission) (t0 : Nat) :
+    targetShutdownAt cfg cmd script t0 ≤ t0 + cfg.D + 2 * cfg.lat := by
+  have := target_time cfg hr cmd script t0
+  have h0 : txSlack cfg script = 0 := by
+    unfold txSlack; split
+    · rfl
+    · exact slack_no_tx cfg script hs
+  simpa [targetShutdownAt, h0] using this
+
+def TargetDeactivateBounded (cfg : Cfg) : Prop :=
+  ∃ B, ∀ script t0, (targetDeactivate cfg .no script t0).tEnd ≤ t0 + B
+
+/-- open finding `deactivate-unbounded-transmission-errors`: `send_res_recv_req` repeats an exchange after a
+    TransmissionError without looking at the deadline (`while True`), so a driver that keeps reporting
+    transmission errors (one per tick) keeps `_deactivate` - and with it `terminate()` - busy beyond every bound -/
+theorem target_deactivate_unbounded_counterexample (cfg : Cfg) (hb : cfg.retryBounded = false) (hl : 1 ≤ cfg.lat)
+    (hD : 0 < cfg.D) : ¬ TargetDeactivateBounded cfg := by
+  rintro ⟨B, h⟩
+  obtain ⟨script, hs⟩ := target_unbounded cfg hb hl hD 0 B
+  have := h script 0
+  omega
+
+/-- the model tells a renewed deadline from a fixed one (class of seeded change C09-r5m4: "allow the initiator
+    one more second from each answered request"): an initiator that does nothing but legal DEP requests, one per
+    tick, keeps the deactivation - and the application threads - waiting beyond every bound -/
+theorem renewed_deadline_counterexample (cfg : Cfg) (hn : cfg.renew = true) (hl : 1 ≤ cfg.lat) (hD : 0 < cfg.D)
+    (t0 B : Nat) :
+    ∃ script, (∀ ev ∈ script, ev = infEv) ∧ B < (targetDeactivate cfg .no script t0).tEnd :=
+  renew_unbounded cfg hn hl hD t0 B
+
+/-- **Initiator.deactivate returns in bounded time**: exactly one exchange, over by `t0 + tInit + lat`,
+    whatever the target answers or the driver raises -/
+theorem initiator_deactivate_bounded (cfg : Cfg) (tInit : Nat) (release : Bool) (script : List Deact.Ev) (t0 : Nat) :
+    (initiatorDeactivate cfg tInit release script t0).tEnd ≤ t0 + tInit + cfg.lat ∧
+    (initiatorDeactivate cfg tInit release script t0).trace.length = 1 :=
+  initiator_time cfg tInit release script t0
+
+/-- one second = 1024 ticks, driver latency 2 ticks -/
+def exCfg : Cfg := { D := 1024, lat := 2, retryBounded := false }
+
+/-- a chatty initiator: SYMM every 100 ticks for ever; the dialogue ends with the deadline -/
+example : (targetDeactivate exCfg .no (List.replicate 300 ⟨.frame .inf true, 100⟩) 5000).tEnd = 6026 := by decide
+/-- ATN, RLS: released after two requests -/
+example : (targetDeactivate exCfg .no [⟨.frame .atn true, 7⟩, ⟨.frame .rls true, 9⟩, ⟨.timeout, 1⟩] 0).tEnd = 17 := by decide
+/-- the same chatty initiator against a renewed deadline: still there after 300 requests -/
+example : (targetDeactivate { exCfg with renew := true } .no (List.replicate 300 ⟨.frame .inf true, 100⟩) 5000).tEnd
+    = 5000 + 300 * 100 + 1026 := by decide
+/-- ten transmission errors after the deadline cost ten more latencies -/
+example : (targetDeactivate exCfg .no (⟨.frame .inf true, 1023⟩ :: List.replicate 10 ⟨.transmission, 2⟩) 0).tEnd
+    = 1023 + 2 + 9 * 2 + 2 := by decide
+example : (initiatorDeactivate exCfg 102 false [⟨.frame .inf true, 500⟩] 10).tEnd = 114 := by decide
+
+end Deactivation
 
 end NfcVerif.C09
